@@ -328,7 +328,7 @@ func (g *Gen) Narrow(t Ty) Ty {
 		return Var(append(append([]Ty{}, t.Ts[:i]...), t.Ts[i+1:]...)...)
 	case "opt":
 		return g.pickTy([]Ty{t.Ts[0], Atom("undef"), NU(t.Ts[0]), Opt(g.Narrow(t.Ts[0]))})
-	case "nu", "type", "sens":
+	case "nu", "type", "sens", "itr":
 		return Wrap1(t.K, g.Narrow(t.Ts[0]))
 	case "iter":
 		switch g.n(4) {
@@ -540,7 +540,7 @@ func (g *Gen) Widen(t Ty) Ty {
 			return t.Ts[0]
 		}
 		return NU(g.Widen(t.Ts[0]))
-	case "type", "sens", "iter":
+	case "type", "sens", "iter", "itr":
 		return Wrap1(t.K, g.Widen(t.Ts[0]))
 	case "obj":
 		if len(t.Path) > 0 {
@@ -616,7 +616,7 @@ func (g *Gen) Contexts(a, b Ty) []Ctx {
 	} else {
 		out = append(out, Ctx{"var-member", Var(sib, a), Var(sib, b)})
 	}
-	for _, k := range []string{"opt", "nu", "type", "sens", "iter"} {
+	for _, k := range []string{"opt", "nu", "type", "sens", "iter", "itr"} {
 		out = append(out, Ctx{k, Wrap1(k, a), Wrap1(k, b)})
 	}
 	return out
